@@ -86,6 +86,11 @@ func (x *Exec) invoke(t *Thread, fnv Value, args []Value, onRet func(Value) (Val
 			return
 		}
 		name := fnName(fn.Fn)
+		// an explicit stub of the check description takes precedence over an engine intrinsic
+		if rep := x.P.replacement(fn.Fn, name); rep != nil {
+			fn = &Closure{Fn: rep, Free: fn.Free}
+			name = fnName(rep)
+		}
 		if nf := x.P.native(fn.Fn, name); nf != nil {
 			ctx := &callCtx{fn: fn.Fn, onRet: onRet, discard: discard}
 			ret, st := nf(x, t, args, ctx)
@@ -101,7 +106,8 @@ func (x *Exec) invoke(t *Thread, fnv Value, args []Value, onRet func(Value) (Val
 		if rep := x.P.replacement(fn.Fn, name); rep != nil {
 			target = rep
 		}
-		if target.Synthetic == "package initializer" && !x.P.isRepoPkg(target.Pkg) {
+		if target.Synthetic == "package initializer" && (!x.P.isRepoPkg(target.Pkg) || strings.Contains(target.Pkg.Pkg.Path(), "/genproto/")) {
+			// initialisers of non-repository packages and of generated protobuf packages (reflection) are not run
 			x.completeNative(t, nil, onRet, discard)
 			return
 		}
